@@ -19,6 +19,7 @@ FUNCTIONS = [
     "toasty.pyramid.Pyramid.subpyramid",
     "toasty.toast._postfix_corner",
     "toasty.toast.generate_tiles_filtered",
+    "toasty.toast.generate_tiles",
 ]
 LEMMAS = ["desc_child_step", "desc_child_pair", "desc_siblings_disjoint", "desc_levels", "desc_transitive",
           "desc_root", "pow2_add", "ops_plus_leaves_equals_live",
